@@ -254,6 +254,99 @@ theorem overlay_cover_contains {β : Type} (srcs : List (Op β)) (hs : ∀ o ∈
       · exact Or.inl (includePyramid_has hf (hs o' (by simp)) h1 c (Or.inr hc'))
       · exact Or.inr ⟨o', ho'', hc'⟩
 
+/-! #### …and it is the least such coverage -/
+
+theorem includeBBox_least {p r Q : Pyramid} (hp : p.WF) (hQ : Q.WF) {b : BBox} (hb : b.WF)
+    (h : Pyramid.includeBBox p b = .ok r)
+    (h1 : ∀ c, p.has c = true → Q.has c = true) (h2 : ∀ c, b.has c = true → Q.has c = true) (c : Coord) :
+    r.has c = true → Q.has c = true := by
+  obtain ⟨a, ha1, ha2, ha3⟩ := pyr_get hp hb.1
+  obtain ⟨d, hd1, hd2, _⟩ := pyr_get hQ hb.1
+  unfold Pyramid.includeBBox Pyramid.updateLevel at h
+  rw [ha1] at h
+  simp only at h
+  cases hab : a.includeBBox b with
+  | err => rw [hab] at h; simp only [Outcome.unwrap] at h; cases h
+  | panic => rw [hab] at h; simp only [Outcome.unwrap] at h; cases h
+  | ok x =>
+    rw [hab] at h
+    simp only [Outcome.unwrap] at h
+    cases h
+    have hlt : b.level < p.length := by rw [hp.1]; have := hb.1; omega
+    rw [pyr_has_set hlt]
+    by_cases hz : c.2.2 = b.level
+    · rw [if_pos hz, contains3_iff]
+      rintro ⟨_, hm⟩
+      have hdm : mem d c.1 c.2.1 := by
+        apply include_least (wf_inRange ha3) (wf_inRange hb) hab d _ c.1 c.2.1 hm
+        intro x y hor
+        have hq : Q.has (x, y, b.level) = true := by
+          rcases hor with hma | hmb
+          · exact h1 (x, y, b.level) ((pyr_has_iff (c := (x, y, b.level)) ha1 ha2).mpr hma)
+          · exact h2 (x, y, b.level) ((contains3_iff _ _ _ _).mpr ⟨rfl, hmb⟩)
+        exact (pyr_has_iff (c := (x, y, b.level)) hd1 hd2).mp hq
+      exact (pyr_has_iff (by rw [hz]; exact hd1) (by rw [hz]; exact hd2)).mpr hdm
+    · rw [if_neg hz]
+      exact h1 c
+
+theorem includeFold_least (Q : Pyramid) (hQ : Q.WF) (l : List BBox) (hl : ∀ b ∈ l, b.WF) :
+    ∀ (p r : Pyramid), p.WF →
+      l.foldl (fun (acc : Outcome Pyramid) b => acc.bind (fun a => Pyramid.includeBBox a b)) (Outcome.ok p) = Outcome.ok r →
+      (∀ c, p.has c = true → Q.has c = true) → (∀ b ∈ l, ∀ c, b.has c = true → Q.has c = true) →
+      ∀ c, r.has c = true → Q.has c = true := by
+  induction l with
+  | nil =>
+    intro p r _ h h1 _ c hc
+    cases h
+    exact h1 c hc
+  | cons b bs ih =>
+    intro p r hp h h1 h2 c hc
+    obtain ⟨r1, e1, e2⟩ := pyrIncludeBBox_ok hp (hl b (by simp))
+    simp only [List.foldl_cons, Outcome.bind, e1] at h
+    exact ih (fun x hx => hl x (by simp [hx])) r1 r e2 h
+      (fun c' => includeBBox_least hp hQ (hl b (by simp)) e1 h1 (h2 b (by simp)) c')
+      (fun b' hb' => h2 b' (by simp [hb'])) c hc
+
+theorem includePyramid_least {p q r Q : Pyramid} (hp : p.WF) (hq : q.WF) (hQ : Q.WF)
+    (h : Pyramid.includePyramid p q = .ok r)
+    (h1 : ∀ c, p.has c = true → Q.has c = true) (h2 : ∀ c, q.has c = true → Q.has c = true) (c : Coord) :
+    r.has c = true → Q.has c = true := by
+  unfold Pyramid.includePyramid Pyramid.iterLevels at h
+  have hl : ∀ b ∈ q.filter (fun b => !b.isEmpty), b.WF := by
+    intro b hb
+    obtain ⟨i, hi, rfl⟩ := List.getElem_of_mem (List.mem_filter.mp hb).1
+    exact (hq.2 i hi).2
+  apply includeFold_least Q hQ _ hl p r hp h h1 _ c
+  intro b hb c' hc'
+  obtain ⟨i, hi, rfl⟩ := List.getElem_of_mem (List.mem_filter.mp hb).1
+  apply h2
+  obtain ⟨hz, hm⟩ := (contains3_iff _ _ _ _).mp hc'
+  have hlev := (hq.2 i hi).1
+  exact (pyr_has_iff (c := c') (lb := q[i]) (by rw [hz, hlev]; exact List.getElem?_eq_getElem hi) (by rw [hz])).mpr hm
+
+/-- **coverage = union, least upper bound**: every well-formed pyramid `Q` that contains the
+    coverage of every source (and the starting coverage, which is the first source's) contains the
+    advertised coverage of the overlay – together with `overlay_cover_contains` the advertised
+    coverage is exactly the per-level bounding union. -/
+theorem overlay_cover_least {β : Type} (srcs : List (Op β)) (hs : ∀ o ∈ srcs, o.src.cover.WF) (Q : Pyramid) (hQ : Q.WF) :
+    ∀ (first cover : Pyramid), first.WF → unionCover first srcs = .ok cover →
+      (∀ c, first.has c = true → Q.has c = true) →
+      (∀ o ∈ srcs, ∀ c, o.src.cover.has c = true → Q.has c = true) →
+      ∀ c, cover.has c = true → Q.has c = true := by
+  unfold unionCover
+  induction srcs with
+  | nil =>
+    intro first cover _ h h1 _ c hc
+    cases h
+    exact h1 c hc
+  | cons o os ih =>
+    intro first cover hf h h1 h2 c hc
+    obtain ⟨r1, e1, e2⟩ := includePyramid_ok hf (hs o (by simp))
+    simp only [List.foldl_cons, Outcome.bind, e1] at h
+    exact ih (fun x hx => hs x (by simp [hx])) r1 cover e2 h
+      (fun c' => includePyramid_least hf (hs o (by simp)) hQ e1 h1 (h2 o (by simp)) c')
+      (fun o' ho' => h2 o' (by simp [ho'])) c hc
+
 /-- …and therefore contains every tile the overlay can return, if the sources' coverages contain
     theirs (C03 for the overlay) -/
 theorem overlay_covers {β : Type} (ops : Ops β) (out : Nat) (srcs : List (Op β))
